@@ -587,7 +587,12 @@ class Facts:
     def closures_of(self, fn):
         """closure bodies whose typeck root is `fn` (same crate); for an inlined view also those of the inlined helpers"""
         roots = {fn.path} | set(getattr(fn, 'inlined_from', ()))
-        return [g for g in self.fns if g.kind == 'closure' and g.root in roots and g.crate == fn.crate]
+        out = [g for g in self.fns if g.kind == 'closure' and g.root in roots and g.crate == fn.crate]
+        if self.auto_inline and fn.crate == 'renoir':
+            # a closure that calls a private helper of the enclosing type (`(0..k).for_each(|i| self.update_slot(i, ..))`) is handed
+            # out with that helper expanded, like the enclosing function itself
+            out = [self.inl(g, mode='all') for g in out]
+        return out
 
     auto_inline = os.environ.get('NOIR_INLINE', '1') != '0'
 
